@@ -37,13 +37,13 @@ Fixpoint hbh_loop (fuel : nat) (data : slice) (pos : nat) : res unit :=
          else hbh_loop f data pos')%res
   end.
 
-(* ParseHopByHopExtensions (:113): data := p[2:p.Len()] with Len() = int(p[1])*8+8 *)
+(* ParseHopByHopExtensions (:113, with the length guard added by the repair):
+   len(p) < 2 || len(p) < p.Len() -> ErrParseFrame; data := p[2:p.Len()], Len() = int(p[1])*8+8 *)
 Definition hbh_parse (fuel : nat) (p : slice) : res unit :=
-  (l1 <- idx p 1 ;;
-   data <- sl p 2 (N.to_nat l1 * 8 + 8) ;;
-   hbh_loop fuel data 0)%res.
-
-(* Known defect class: ParseHopByHopExtensions does not call IsValid itself; a header shorter
-   than 2 bytes or whose Len() exceeds the capacity makes p.Data() panic. *)
-Definition known_C08_hbh_short (p : slice) : bool :=
-  Nat.ltb (len p) 2 || Nat.ltb (cap p) (N.to_nat (nth 1 (arr p) 0) * 8 + 8).
+  if Nat.ltb (len p) 2 then Err EParseFrame
+  else
+    (l1 <- idx p 1 ;;
+     if Nat.ltb (len p) (N.to_nat l1 * 8 + 8) then Err EParseFrame
+     else
+       data <- sl p 2 (N.to_nat l1 * 8 + 8) ;;
+       hbh_loop fuel data 0)%res.
